@@ -268,6 +268,9 @@ func expectTokenSlash(s string) (token, rest string) {
 	return s[:i], s[i:]
 }
 
+// maxQualityDigits is the number of fractional digits of a q-value that are taken into account.
+const maxQualityDigits = 15
+
 func expectQuality(s string) (q float64, rest string) {
 	switch {
 	case len(s) == 0:
@@ -295,8 +298,12 @@ func expectQuality(s string) (q float64, rest string) {
 		if b < '0' || b > '9' {
 			break
 		}
-		n = n*10 + int(b) - '0'
-		d *= 10
+		if i < maxQualityDigits {
+			// further digits are consumed but cannot change the value in a representable way:
+			// they must not overflow n and d
+			n = n*10 + int(b) - '0'
+			d *= 10
+		}
 	}
 	return q + float64(n)/float64(d), s[i:]
 }
